@@ -23,7 +23,8 @@ type Automaton struct {
 	Out     func(s int) string // output signature used for distinguishing states
 }
 
-// FromGraph builds the automaton. action is the edge action name whose single argument is the class.
+// FromGraph builds the automaton. action is the edge action name whose single argument is the class;
+// with action == "" every distinct edge label is a class of its own.
 func FromGraph(g *tlc.Graph, action string) (*Automaton, error) {
 	a := &Automaton{G: g, Idx: map[string]int{}, CIdx: map[string]int{}}
 	if len(g.Init) != 1 {
@@ -37,7 +38,9 @@ func FromGraph(g *tlc.Graph, action string) (*Automaton, error) {
 	cls := map[string]bool{}
 	for _, es := range g.Edges {
 		for _, e := range es {
-			if e.Action == action && len(e.Args) == 1 {
+			if action == "" {
+				cls[e.Label] = true
+			} else if e.Action == action && len(e.Args) == 1 {
 				cls[tlc.Str(e.Args[0])] = true
 			}
 		}
@@ -59,14 +62,17 @@ func FromGraph(g *tlc.Graph, action string) (*Automaton, error) {
 	for from, es := range g.Edges {
 		fi := a.Idx[from]
 		for _, e := range es {
-			if e.Action != action || len(e.Args) != 1 {
+			if action != "" && (e.Action != action || len(e.Args) != 1) {
 				continue
 			}
 			ti, ok := a.Idx[e.To]
 			if !ok {
 				return nil, fmt.Errorf("edge to unknown node %s", e.To)
 			}
-			ci := a.CIdx[tlc.Str(e.Args[0])]
+			ci := a.CIdx[e.Label]
+			if action != "" {
+				ci = a.CIdx[tlc.Str(e.Args[0])]
+			}
 			if a.Next[fi][ci] != -1 && a.Next[fi][ci] != ti {
 				return nil, fmt.Errorf("nondeterministic automaton at %s on %s", from, e.Label)
 			}
